@@ -1,38 +1,59 @@
 /-
   C18 — bootstrapping restores levels, preserves the message, confines sparse keys.
 
-  What is PROVED here (about the executable model `Lattigo.Model.Bootstrap`, which the driver runs
-  and the harness ties line by line to the real code):
+  All theorems are about the executable model `Lattigo.Model.Bootstrap` (the driver runs it, the harness
+  ties it line by line to the real code). Status per clause of the property text:
 
-  * key-generation data flow of `Parameters.GenEvaluationKeys` / `genEncapsulationEvaluationKeysNew`:
+  PROVED FOR ALL INPUTS (no hypothesis beyond what the parameter literal validates)
+  * "key material protected only by the ephemeral secret is generated at the smallest modulus":
     `encapsulation_confined`, `encapsulation_key_present`, `sparse_plaintext_only_under_dense`,
-    `genEvaluationKeys_panics_iff`, `accepted_no_panic`, `key_levels_sufficient` (every key has the
-    level the evaluator uses it at, for all admissible input levels) — for EVERY parameter summary;
-  * Galois-key inventory, helper (`dft.MatrixLiteral.GaloisElements`, `Parameters.GaloisElements`) versus
-    evaluator (`NewMatrixFromLiteral` + BSGS evaluation, `Trace`, `Conjugate`, sparse repacking rotation):
-    `index_maps_agree`, `bsgs_rotations_agree`, `keys_exact` (set equality), `keys_sufficient`
-    — for ALL `LogN`, `LogSlots`, depth splits accepted by the parameter literal (no enumeration);
-  * level layout and schedule: `layout_consistent`, `output_level_scale` — for every literal,
-    grouped depth splits included;
-  * scale schedule constants of `Evaluator.initialize` (`roundLog2_spec`, `qDiv_one_iff`, `c2sScaling_eq`):
-    the rounding of log2 Q[0], qDiv, the C2S / S2C scalings as exact powers of two / fractions, tied by
-    the driver op `scaleconst` (a change of rounding direction is a tie mismatch).
+    `genEvaluationKeys_panics_iff`, `accepted_no_panic` — every parameter summary.
+  * "the helper produces exactly the keys the evaluator needs": `keys_exact` (set equality of Galois
+    elements, both directions), `keys_sufficient`, `index_maps_agree`, `bsgs_rotations_agree` — all `LogN`,
+    `LogSlots`, depth splits, BSGS ratios; `key_levels_sufficient` (every key has the `LevelQ`/`LevelP` the
+    evaluator uses it at, over all admissible input levels).
+  * "returns a ciphertext at the announced output level and default scale": `layout_consistent`,
+    `output_level_scale` — every layout incl. grouped splits, iterations, reserved prime. The output SCALE is
+    assigned by `BootstrapMany` (`cts[i].Scale = ResidualParameters.DefaultScale()`): tied by `output`, no theorem needed.
+  * "any admissible input level": `scaleDown_reaches_level_zero` (whenever `ScaleDown` succeeds the output
+    is at level 0, the multiplier is the rounded message-ratio quotient, the primes divided out are those of the
+    level the dropping loop stopped at, output scale within the rounding of the target `2^e/2^r`) and
+    `scaleDown_error_iff` (admissibility as an integer inequality) — every chain of positive moduli, scale, ratio;
+    `Mod1Parameters.QDiff` enters as the float64 it is (`f64round`), all other `big.Float` steps as exact rationals.
+  * scale constants of `Evaluator.initialize`: `roundLog2_spec`, `qDiv_one_iff`, `c2sScaling_eq`.
+  * "the homomorphic encoding/decoding transforms are mutual inverses": `dft_split_independent` (for every
+    `LogSlots` and every depth split the generated matrices compose to `σ^depth ·` the `LogSlots` butterfly layers —
+    a matrix in diagonal form times the next layer is the composition) and `dft_inverse`
+    (`S2C ∘ C2S = σ_s^d_s · σ_c^d_c · 2^LogSlots · id` in every commutative ring with `ζ^(4·slots) = 1`), for
+    vectors of length `slots`.
 
-  What is NOT provable here and is covered ONLY by measured probes of the harness
-  (`bootstrap_precision`, `c2s_s2c_inverse`, `batch_bootstrap`, labelled `measured=1`):
-  the end-to-end precision of the bootstrapped message — quality of the scaled sine / cosine /
-  arcsine approximation (`mod1`, `utils/cosine`), the float64/big.Float DFT constants and their
-  encoding error, noise growth. The output *scale* is assigned by `BootstrapMany`
-  (`cts[i].Scale = ResidualParameters.DefaultScale()`), so "announced scale" holds by construction;
-  whether the message is consistent with that scale is exactly the measured precision.
-  That `EvaluateNew` of `mod1` consumes `Depth()` levels is taken from the tie line `stages`.
+  PARTIAL (named)
+  * `dft_inverse` covers full packing and sparse packing without `RepackImagAsReal`, `BitReversed = false`.
+    NOT covered: the doubled vectors, the special first S2C matrix and the masked last C2S matrix of sparse
+    `RepackImagAsReal` (what the bootstrapping uses for `LogSlots < LogN-1`); that the layer product IS the
+    special (inverse) FFT matrix of the CKKS encoding (only mutual inversion is proved). Both are covered by the
+    measured probes `c2s_s2c_inverse`, `bootstrap_precision`.
 
-  The model follows the code AFTER the four C18 fixes (/verif/fixes/C18-*.diff):
-  one rescaling per factorisation group in `dft.Evaluator.dft` (before: one per matrix — the four
-  shipped literals with an S2C group `{30, 30}` bootstrapped to `MaxLevel-1` with no precision);
-  `ShallowCopy` keeps `xPow2InvN1`; no Galois key for the identity automorphism / conjugation generated
-  once; `NewParametersFromLiteral` rejects an empty `LogP` (before: `GenEvaluationKeys` panicked).
+  TIED ONLY (model = implementation on the explored inputs; the theorems above are about these functions)
+  driver ops `helper_rot`, `lt_index`, `generated`, `required`, `inventory`, `needed`, `layout`, `stages`, `output`,
+  `scaleconst`, `scaledown`, `dft_layers` (exact exponents of every entry of the fully split factorisation).
+  That `mod1.EvaluateNew` consumes `Depth()` levels is taken from `stages`. The entries of MERGED matrices are floats in
+  the code: `merged_is_product` (probe, real code) checks numerically what `dft_split_independent` proves for the model.
+
+  PROBED ONLY (measured on the real code, `measured=1`; not provable here)
+  "the message equals the input message within the precision announced", "the modular-reduction step approximates
+  x mod 1 within its stated error": `bootstrap_precision`, `batch_bootstrap`, `c2s_s2c_inverse` — sine/cosine/arcsine
+  approximation quality (`mod1`, `utils/cosine`), float64/big.Float DFT constants, encoding error, noise growth, and the
+  exactness of ModUp's integer multiplier. No separate probe of `mod1.EvaluateNew` against x mod 1.
+  ShallowCopy wiring / concurrency: `shallowcopy_*` probes (runtime aliasing is outside the model).
+
+  The model follows the code after the C18 fixes (/verif/fixes/C18-1…5): one rescaling per factorisation group,
+  `ShallowCopy` keeps `xPow2InvN1`, no identity Galois key, empty `LogP` rejected, `ScaleDown` matches a level>0 input
+  to `2^round(log2 Q0)/MessageRatio`.
 -/
+import Lattigo.Proofs.BootstrapScale
+import Lattigo.Proofs.BootstrapDFT
+import Mathlib.Data.ZMod.Basic
 import Lattigo.Proofs.BootstrapRot
 
 namespace Lattigo.Props.C18
@@ -358,6 +379,80 @@ example : roundLog2 1152921504606830593 = 60 ∧ Nat.log2 1152921504606830593 = 
     (⟨1152921504606830593, 55, 14, 40, 16, false⟩ : ScaleLit).qDivNegLog = 5 := by decide +kernel
 example : (⟨1152921504606830593, 60, 14, 40, 16, true⟩ : ScaleLit).s2cScalingLog = -7 := by decide
 
+/-! ## 5. `ScaleDown`: admissible inputs -/
+
+/-- **scaleDown_reaches_level_zero.** For every chain of positive moduli, positive scale `S`, message ratio
+    `2^r` and input level `l`: if `ScaleDown` does not return its error then
+    the output is at level 0 (the `RescaleTo` loop never stops early), the ciphertext was multiplied by an
+    integer `n ≥ 1`, the product `den` of the primes divided out is `q_1⋯q_{l'}` for the level `l'` at which the
+    dropping loop stopped, and `n` is the rounded quotient `num/dn` (`|2(dn·n − num)| ≤ dn`), where
+    `num/dn = Q[0]/(S·2^r)` for `l' = 0` and `Q[0]·den·2^e/(S·2^r·f64round Q[0])` otherwise
+    (`f64round Q[0]/2^e` is the float64 `Mod1Parameters.QDiff`): the output scale `S·n/den` is the target
+    `Q[0]/2^r`, resp. `2^e/2^r · Q[0]/f64round Q[0]`, up to the rounding of `n`. -/
+theorem scaleDown_reaches_level_zero (qs : List Nat) (S r l : Nat) (hq : ∀ i, 1 ≤ qs.getD i 1) (hS : 0 < S)
+    {lv n den : Nat} (h : scaleDown qs S r l = some (lv, n, den)) :
+    lv = 0 ∧ 1 ≤ n ∧ den = prodTo qs (dropLevels qs S r l) ∧
+    (let num := if dropLevels qs S r l = 0 then qs.getD 0 1
+                else qs.getD 0 1 * (den * 2 ^ roundLog2 (qs.getD 0 1))
+     let dn := if dropLevels qs S r l = 0 then S * 2 ^ r else S * 2 ^ r * f64round (qs.getD 0 1)
+     2 * (dn * n) ≤ 2 * num + dn ∧ 2 * num < 2 * (dn * n) + dn) :=
+  scaleDown_spec qs S r l hq hS h
+
+/-- **scaleDown_error_iff.** `ScaleDown` returns "initial Q/Scale < 0.5*Q[0]/MessageRatio" exactly when, at the
+    level `l'` where the dropping loop stops, twice the available modulus is below `Scale·MessageRatio`
+    (for `l' > 0` the modulus is `q_1⋯q_{l'}·2^e·Q[0]/f64round Q[0]`). No hypothesis. -/
+theorem scaleDown_error_iff (qs : List Nat) (S r l : Nat) :
+    scaleDown qs S r l = none ↔
+      (if dropLevels qs S r l = 0 then 2 * qs.getD 0 1 < S * 2 ^ r
+       else 2 * (qs.getD 0 1 * prodTo qs (dropLevels qs S r l) * 2 ^ roundLog2 (qs.getD 0 1))
+              < S * 2 ^ r * f64round (qs.getD 0 1)) :=
+  scaleDown_none_iff qs S r l
+
+/-- a level-0 input is admissible iff `S · MessageRatio ≤ 2·Q[0]` -/
+theorem scaleDown_level0_iff (qs : List Nat) (S r : Nat) :
+    scaleDown qs S r 0 ≠ none ↔ S * 2 ^ r ≤ 2 * qs.getD 0 1 := by
+  rw [Ne, scaleDown_error_iff qs S r 0]
+  simp [dropLevels]
+
+/-- the chain of the harness configuration `q0_50_rescale` (`Q[0]` 50 bits, scale `2^40`, ratio `2^14`): level 0 is
+    inadmissible, a level-1 input is rescaled by `Q[1]` (same values as the `scaledown` tie lines) -/
+example : scaleDown [1125899906856961, 1099511592961, 1099511480321] (2 ^ 40) 14 0 = none ∧
+    scaleDown [1125899906856961, 1099511592961, 1099511480321] (2 ^ 40) 14 1 = some (0, 68719474560, 1099511592961) := by
+  decide +kernel
+
+/-! ## 6. The factorised DFT: split independence and mutual inversion -/
+
+/-- **dft_split_independent.** For every accepted matrix literal (any `LogSlots ≥ 1`, any depth split, grouped or
+    not, Encode or Decode merge order) and any family of layers with rotations below `slots`: the matrices of
+    `GenMatrices` (each diagonal scaled by `σ`) applied in sequence equal `σ^Depth` times the composition of all
+    `LogSlots` butterfly layers, level `LogSlots` down to 1. In particular the operator does not depend on the split. -/
+theorem dft_split_independent {R : Type} [CommRing R] (d : MatLit) (layer : Nat → Layer R)
+    (hrot : ∀ lvl, 1 ≤ lvl → lvl ≤ d.logSlots → (layer lvl).rot < 2 ^ d.logSlots)
+    (hv : d.valid) (h1 : 1 ≤ d.maxDepth) (σ : R) (x : Nat → R) (j : Nat) (hj : j < 2 ^ d.logSlots) :
+    applyMats (2 ^ d.logSlots) (genMatricesVals d layer σ) x j
+      = σ ^ d.maxDepth * applyLayersDown (2 ^ d.logSlots) layer d.logSlots d.logSlots x j :=
+  genMatrices_apply d layer hrot hv h1 σ x j hj
+
+/-- **dft_inverse.** `SlotsToCoeffs ∘ CoeffsToSlots = σ_s^{depth_s} · σ_c^{depth_c} · 2^LogSlots · id` for every `LogSlots`
+    and every pair of accepted depth splits, in every commutative ring with a root `ζ^(4·slots) = 1`; the layers are
+    the model's `dftLayer` tables (tied to `fftPlainVec` / `ifftPlainVec` by `dft_layers`). With
+    `σ_c^{depth_c} = scaling_c / slots` (the `1/N` of the Encode type) and `σ_s^{depth_s} = scaling_s` this is
+    `scaling_s · scaling_c · id`. -/
+theorem dft_inverse {R : Type} [CommRing R] (ζ : R) (dC dS : MatLit)
+    (hL : dS.logSlots = dC.logSlots) (hvC : dC.valid) (hvS : dS.valid) (h1C : 1 ≤ dC.maxDepth) (h1S : 1 ≤ dS.maxDepth)
+    (hζ : ζ ^ (4 * 2 ^ dC.logSlots) = 1) (σc σs : R) (x : Nat → R) (j : Nat) (hj : j < 2 ^ dC.logSlots) :
+    applyMats (2 ^ dC.logSlots) (genMatricesVals dS (decLayers ζ dC.logSlots) σs)
+      (applyMats (2 ^ dC.logSlots) (genMatricesVals dC (encLayers ζ dC.logSlots) σc) x) j
+      = σs ^ dS.maxDepth * σc ^ dC.maxDepth * 2 ^ dC.logSlots * x j :=
+  Lattigo.Proofs.Bootstrap.dft_inverse ζ dC dS hL hvC hvS h1C h1S hζ σc σs x j hj
+
+/-- non-vacuity: `ζ = 3` is a primitive 16-th root of unity in `ZMod 17` (`slots = 4`), C2S split `{1},{1}`, S2C one
+    group of two matrices -/
+example : (3 : ZMod 17) ^ (4 * 2 ^ 2) = 1 ∧ (3 : ZMod 17) ^ 8 ≠ 1 ∧
+    (⟨true, 2, [1, 1], false, false, 1⟩ : MatLit).valid ∧ (⟨false, 2, [2], false, false, 1⟩ : MatLit).valid ∧
+    1 ≤ (⟨true, 2, [1, 1], false, false, 1⟩ : MatLit).maxDepth ∧ 1 ≤ (⟨false, 2, [2], false, false, 1⟩ : MatLit).maxDepth := by
+  decide
+
 end Lattigo.Props.C18
 
 #print axioms Lattigo.Props.C18.encapsulation_confined
@@ -375,3 +470,8 @@ end Lattigo.Props.C18
 #print axioms Lattigo.Props.C18.roundLog2_spec
 #print axioms Lattigo.Props.C18.qDiv_one_iff
 #print axioms Lattigo.Props.C18.c2sScaling_eq
+#print axioms Lattigo.Props.C18.scaleDown_reaches_level_zero
+#print axioms Lattigo.Props.C18.scaleDown_error_iff
+#print axioms Lattigo.Props.C18.scaleDown_level0_iff
+#print axioms Lattigo.Props.C18.dft_split_independent
+#print axioms Lattigo.Props.C18.dft_inverse
